@@ -83,7 +83,7 @@ func factory(raw json.RawMessage) (seqx.System, error) {
 		{Name: "cat=c1", Q: &models.Query{Property: "cat", String: &models.SearchStringOptions{Value: "c1", Operator: models.OperatorEquals}}}}
 	return &sl.ShardSystem{In: in, M: sl.NewModel(c.Inst.Schema, in.Cfg.MaxPointSize), Syms: symbols(c.Metric),
 		Battery: func(s *sl.ShardSystem) {
-			qc := sl.VamanaQueryCfg{Prop: prop, Params: params, Queries: queries, Limits: []int{1, 3, 75}, SearchSizes: []int{25, 75}, Weights: []*float32{nil, f32(0.5), f32(-1)}, Filters: filters, InsertOnly: s.InsertOnly()}
+			qc := sl.VamanaQueryCfg{Prop: prop, Params: params, Queries: queries, Limits: []int{1, 3, 75}, SearchSizes: []int{25, 75}, Weights: []*float32{nil, f32(0.5), f32(-1), f32(0)}, Filters: filters, InsertOnly: s.InsertOnly()}
 			s.In.VamanaBattery(&s.Obs, s.M, qc)
 			// filters that fill the search window exactly (and one below / above it), limit = window:
 			// the boundary of the exactness claim "filters with at most searchSize members"
@@ -109,7 +109,7 @@ type quant struct {
 }
 
 func master(cfg *harness.Config, rep *harness.Report) {
-	rep.Rule = "all write histories up to the depth (insert 1-3 vectors incl. duplicates and vectorless points, move, remove/add the field, the same point twice in one update batch, delete, re-insert with node-id reuse), from the empty shard and from 30 lattice points, x metric {euclidean, dot, cosine, haversine, hamming} x quantiser {none, binary fixed, binary learned(trigger 3), product (2x2, trigger 3)}; after every batch 4 queries x limit {1,3,75} x searchSize {25,75} x weight {nil,0.5,-1} x pre-filter {none, empty, one point, all, mixed live/vectorless/absent ids, string filter}, plus limit = searchSize = 25 with filters of 24 / 25 / 26 members over the 30-point start state: only live in-filter points with the field, no duplicate, never the entry node, <= limit, sorted, distance = index distance, hybrid = -weight*distance; exact k-NN for insert-only histories with <= min(degreeBound, searchSize-1) vectors and for filters with <= searchSize members. Histories are not merged (the warm graph cache is state outside the buckets)"
+	rep.Rule = "all write histories up to the depth (insert 1-3 vectors incl. duplicates and vectorless points, move, remove/add the field, the same point twice in one update batch, delete, re-insert with node-id reuse), from the empty shard and from 30 lattice points, x metric {euclidean, dot, cosine, haversine, hamming} x quantiser {none, binary fixed, binary learned(trigger 3), product (2x2, trigger 3)}; after every batch 4 queries x limit {1,3,75} x searchSize {25,75} x weight {nil,0.5,-1,0} x pre-filter {none, empty, one point, all, mixed live/vectorless/absent ids, string filter}, plus limit = searchSize = 25 with filters of 24 / 25 / 26 members over the 30-point start state: only live in-filter points with the field, no duplicate, never the entry node, <= limit, sorted, distance = index distance, hybrid = -weight*distance; exact k-NN for insert-only histories with <= min(degreeBound, searchSize-1) vectors and for filters with <= searchSize members. Histories are not merged (the warm graph cache is state outside the buckets)"
 	rep.Assumptions = []string{"the entry vector is random (math/rand/v2): oracles are independent of graph shape", "product quantiser with trigger threshold 3 (HTTP minimum 1000), 2 sub-vectors x 2 centroids; centroids and centroid ids read back from the bucket and checked for consistency", "runtime.NumCPU()-1 = 1 insert worker (CPU affinity 2)"}
 	p := pool.New(pool.Options{CPUsPerWorker: 2, JobTimeout: 60 * time.Second})
 	if cfg.Replay != "" {
